@@ -10,8 +10,8 @@ use std::sync::atomic::AtomicBool;
 use std::sync::RwLock;
 use std::time::SystemTime;
 
-#[derive(Debug)]
-struct TransferInfo {
+#[derive(Debug, Clone)]
+pub(crate) struct TransferInfo {
     transferring: bool,
     transfer_count: u32,
     total_nb_transfer: u64,
@@ -256,6 +256,16 @@ impl FileDesc {
     pub fn transfer_done(&self, now: SystemTime) {
         let mut info = self.transfer_info.write().unwrap();
         info.done(now);
+    }
+
+    /// State to hand back to `transfer_cancelled` when a transfer that was just started cannot take place
+    pub(crate) fn transfer_state(&self) -> TransferInfo {
+        self.transfer_info.read().unwrap().clone()
+    }
+
+    /// Undo `transfer_started`
+    pub(crate) fn transfer_cancelled(&self, state: TransferInfo) {
+        *self.transfer_info.write().unwrap() = state;
     }
 
     pub fn is_expired(&self) -> bool {
